@@ -883,6 +883,12 @@ func (p *Prog) callImpliesR(fn *ssa.Function, r *Renderer, v ssa.Value, re *rege
 	gr := p.RBound(g, bind, 1)
 	subst := fix
 	avoid := map[edgeKey]bool{}
+	// what the caller knows about dynamic types at the call makes some branches of the callee infeasible
+	if r == p.R(fn) {
+		for k := range p.infeasibleUnder(p.typeAssumptionsAt(fn, call), g, gr, fix) {
+			avoid[k] = true
+		}
+	}
 	n := 0
 	for _, ef := range p.edgeFactsWith(g, gr) {
 		if ef.Fact == infeasible {
